@@ -49,6 +49,7 @@ fn main() {
         "ram_bundle" => h_misc::ram_bundle(),
         "decode_extreme" => h_maps::decode_extreme(),
         "decode_document" => h_maps::decode_document(),
+        "decode_reject" => h_maps::decode_reject(),
         "decode_mutants" => h_misc::decode_mutants(),
         "adjust" => h_maps::adjust(false),
         "adjust_dups" => h_maps::adjust(true),
